@@ -109,7 +109,7 @@ def check(model: Model, run: Run) -> None:
     run.check(okn, kainit.qualname, 'SendTimer(session, proto.negotiated.holdtime)', kainit.loc(), 'the send timer must use the negotiated hold time')
 
     # ------------------------------------------------------------------ R3 main loop wiring
-    run.rule('C12.R3', 'in the Peer._main loop both recv_timer.check_ka(message) and send_ka.send_if_needed() run on every iteration, unconditionally, before inbound handling and outbound work', floor=2)
+    run.rule('C12.R3', 'in the Peer._main loop both recv_timer.check_ka(message) and send_ka.send_if_needed() run on every iteration, unconditionally, before inbound handling and outbound work, and the inbound read is polled on every iteration before check_ka', floor=3)
     mainf = model.func(PEER + '._main')
     run.analysed(mainf)
     loop = None
@@ -151,6 +151,41 @@ def check(model: Model, run: Run) -> None:
     if idx_ck is not None:
         c = model.calls_to(mainf.module, top[idx_ck], 'ReceiveTimer.check_ka')[0]
         run.check(bool(c.args) and isinstance(c.args[0], ast.Name) and c.args[0].id == 'message', mainf.qualname, 'check_ka receives the message just read', mainf.loc(c), 'the timer must see the received message')
+
+    # the message handed to the hold timer comes from a read that is polled on EVERY iteration
+    cfg = CFG(mainf.node)
+    ln = cfg.node_of(loop)
+    polls = set()
+    for n in cfg.nodes:
+        if n.ast is None or n.kind != 'stmt' or n.copy:
+            continue
+        if not (loop.lineno <= getattr(n.ast, 'lineno', 0) <= (loop.end_lineno or 0)):
+            continue
+        for x in walk_no_nested(n.ast):
+            if isinstance(x, ast.Await) and isinstance(x.value, ast.Call):
+                d = dotted(x.value.func) or ''
+                if d in ('asyncio.wait', 'asyncio.wait_for') or model.call_matches(mainf.module, x.value, 'Protocol.read_message'):
+                    polls.add(n.id)
+    ckn = cfg.stmt_node_containing(model.calls_to(mainf.module, top[idx_ck], 'ReceiveTimer.check_ka')[0]) if idx_ck is not None else None
+    okp = False
+    wit: list[int] = []
+    if ln is not None and ckn is not None and polls:
+        # start from the first node of the loop body
+        starts = [s_ for s_, lab in ln.succ if lab == 'true']
+        okp = True
+        for st_ in starts:
+            if st_ in polls:
+                continue
+            passed, wit = cfg.all_paths_pass(st_, polls, {ckn.id}, skip_labels=('exc',))
+            okp = okp and passed
+    run.check(
+        okp,
+        mainf.qualname,
+        'the inbound read is polled on every iteration before check_ka',
+        mainf.loc(loop),
+        'on some path through the loop body recv_timer.check_ka runs without the connection having been read in this '
+        'iteration (%s): while that path is taken nothing refreshes last_read and a healthy peer is closed with 4/0' % ' -> '.join(cfg.describe_path(wit)[:8]),
+    )
 
     # ------------------------------------------------------------------ R4 bounded outbound work
     run.rule('C12.R4', 'outbound work per iteration is bounded: _send_route_updates pulls at most routes_per_iteration messages (a folded constant) from the generator per call', floor=2)
